@@ -3,6 +3,8 @@ import AdeuModel.Model.Str
 import AdeuModel.Model.Diff
 import AdeuModel.Model.Trim
 import AdeuModel.Model.Init
+import AdeuModel.DriverDoc
+import AdeuModel.Model.Mapper
 /-
 Line protocol driver: one JSON object per input line, one JSON result per output line.
 Imports model files only (never Lemmas/Props), so it can be compiled to a native executable.
@@ -155,6 +157,23 @@ def handleInitOp (j : Json) : Except String Json := do
     ("final", stJ fin), ("found", Json.arr found.toArray),
     ("concl", Json.mkObj [("crash_safe_all_k", toJson crashSafe)])]
 
+def handleExtract (j : Json) : Except String Json := do
+  let d0 ← DriverDoc.parseDoc (← j.getObjVal? "doc")
+  let d := Doc.normalize d0
+  let raw := Doc.extractText false d
+  let clean := Doc.extractText true d
+  let mraw := Doc.mapperText false d
+  let mclean := Doc.mapperText true d
+  pure <| Json.mkObj [("raw", strJ raw), ("clean", strJ clean), ("map_raw", strJ mraw), ("map_clean", strJ mclean),
+    ("raw_unnormalized", strJ (Doc.extractText false d0)),
+    ("concl", Json.mkObj [("text_eq_raw", toJson (raw == mraw)), ("text_eq_clean", toJson (clean == mclean))])]
+
+def handleNormalize (j : Json) : Except String Json := do
+  let d0 ← DriverDoc.parseDoc (← j.getObjVal? "doc")
+  let d := Doc.normalize d0
+  pure <| Json.mkObj [("doc", DriverDoc.docStoriesJ d),
+    ("concl", Json.mkObj [("idempotent", toJson ((DriverDoc.docStoriesJ (Doc.normalize d)).compress == (DriverDoc.docStoriesJ d).compress))])]
+
 def handle (j : Json) : Except String Json := do
   let op ← j.getObjValAs? String "op"
   match op with
@@ -163,6 +182,8 @@ def handle (j : Json) : Except String Json := do
   | "trim" => handleTrim j
   | "isspace" => handleIsSpace j
   | "init" => handleInitOp j
+  | "extract" => handleExtract j
+  | "normalize" => handleNormalize j
   | _ => throw s!"bad-op {op}"
 
 partial def loop (h : IO.FS.Stream) (out : IO.FS.Stream) : IO Unit := do
